@@ -1039,7 +1039,7 @@ class Env:
         out = []
         recv = target
         if isinstance(target, ast.Attribute) and target.attr == "__class__":
-            recv = target.value
+            recv = None  # function taken from the class: called with an explicit self
         for b in bases:
             for cn in self.model.subclasses(b):
                 for mn, g in self.model.classes[cn].methods.items():
